@@ -12,8 +12,7 @@ def xml_escape(s):
     return str(s).replace('&', '&amp;').replace('<', '&lt;').replace('>', '&gt;').replace('"', '&quot;')
 
 
-def xmile(name, start, stop, dt, variables, reciprocal=False):
-    """variables: list of dict(kind='stock'|'flow'|'aux', name, eqn, inflows=[], outflows=[], non_negative=False, gf=[(x,y)..])"""
+def _variables_xml(variables):
     vs = []
     for v in variables:
         body = '<eqn>%s</eqn>' % xml_escape(v['eqn'])
@@ -28,13 +27,24 @@ def xmile(name, start, stop, dt, variables, reciprocal=False):
             body += '<gf><xscale min="%s" max="%s"/><yscale min="%s" max="%s"/><ypts>%s</ypts></gf>' % (
                 xs[0], xs[-1], min(ys), max(ys), ','.join(repr(float(y)) for y in ys))
         vs.append('<%s name="%s">%s</%s>' % (v['kind'], xml_escape(v['name']), body, v['kind']))
+    return ''.join(vs)
+
+
+def xmile(name, start, stop, dt, variables, reciprocal=False, modules=None):
+    """variables: list of dict(kind='stock'|'flow'|'aux', name, eqn, inflows=[], outflows=[], non_negative=False, gf=[(x,y)..]);
+    modules: {module name: variables} -> one extra <model name=...> per module, referenced from the root model"""
+    vs = [_variables_xml(variables)]
+    extra = ''
+    for mname, mvars in (modules or {}).items():
+        vs.insert(0, '<module name="%s"/>' % xml_escape(mname))
+        extra += '<model name="%s"><variables>%s</variables></model>' % (xml_escape(mname), _variables_xml(mvars))
     dts = '<dt reciprocal="true">%s</dt>' % dt if reciprocal else '<dt>%s</dt>' % dt
     return ('<?xml version="1.0" encoding="utf-8"?>\n'
             '<xmile version="1.0" xmlns="http://docs.oasis-open.org/xmile/ns/XMILE/v1.0" xmlns:isee="http://iseesystems.com/XMILE">'
             '<header><smile version="1.0" namespace="std, isee"/><name>%s</name><uuid>0</uuid><vendor>verif</vendor>'
             '<product version="1.0" lang="en">verif</product></header>'
             '<sim_specs method="Euler" time_units="Months"><start>%s</start><stop>%s</stop>%s</sim_specs>'
-            '<model><variables>%s</variables></model></xmile>') % (name, start, stop, dts, ''.join(vs))
+            '<model><variables>%s</variables></model>%s</xmile>') % (name, start, stop, dts, ''.join(vs), extra)
 
 
 class Compiled:
